@@ -11,6 +11,7 @@ import (
 	"os"
 	"reflect"
 	"strings"
+	"time"
 
 	"github.com/apache/thrift/lib/go/thrift"
 )
@@ -35,6 +36,19 @@ func errClass(err error) string {
 		}
 	}
 	return "err:other"
+}
+
+// watchdog runs f under recover and a timer: a call that never returns is the outcome `blocked`
+// (the stuck goroutine is abandoned; later jobs use fresh objects).
+func watchdog(d time.Duration, f func() string) string {
+	done := make(chan string, 1)
+	go func() { done <- guarded(f) }()
+	select {
+	case o := <-done:
+		return o
+	case <-time.After(d):
+		return "blocked"
+	}
 }
 
 func guarded(f func() string) (out string) {
@@ -154,7 +168,7 @@ func main() {
 		}
 		idx, op, defsID, goType, sname, payload := p[0], p[1], p[2], p[3], p[4], p[5]
 		d := defsByID[defsID]
-		res := guarded(func() string {
+		res := watchdog(20*time.Second, func() string {
 			f, ok := jobOps[op]
 			if !ok {
 				return "bad-job"
